@@ -112,7 +112,7 @@ def run(ctx):
                 "adversarial alphabet (separators, regex metacharacters, both quotes, backslash, tab, newline, braces, non-ASCII) through "
                 "contains / in / starts_with / ends_with / find / replace (with and without start) / join / split on literal separators "
                 "(also through escape_pattern) / reverse / trim / upper / lower / chr / ord / length / s-interpolation; checked against host "
-                "string operations, mutual consistency laws and the Lean model; non-trivial = a string containing a special character")
+                "string operations, mutual consistency laws and the Lean model; s() templates of 1..3 placeholders (string values that themselves contain braces, ints) with right / left / zero padding against the definition; non-trivial = a string containing a special character")
     specs = [c[2] for c in cases]
     chunks = [specs[i:i + 4000] for i in range(0, len(specs), 4000)]
     with mp.Pool(16) as pool:
@@ -181,6 +181,47 @@ def run(ctx):
                     continue
                 ctx.violation("oracle", f"law `{law}` fails with s={s!r}, t={t!r}, sep={sep!r}, xs={xs!r}: {out[:3]}",
                               {"op": "law", "law": law, "s": s, "t": t, "sep": sep, "xs": xs})
+    # ---------------- s-interpolation against its definition: every placeholder replaced by the rendered value, padded as the format
+    # says; the literal text and the inserted text (which may itself contain braces) left unchanged
+    from ckl.values import ValueInt
+    lit_alpha = [c for c in SV.ALPHA if c not in "{}#"] + [" ", "=", "x"]
+    for _ in range(5000 if ctx.thorough else 800):
+        nph = rng.randint(1, 3)
+        template, want = "", ""
+        for k in range(nph):
+            piece = "".join(rng.choice(lit_alpha) for _ in range(rng.randint(0, 4)))
+            name = f"p{k}"
+            if rng.random() < 0.3:
+                val = rng.choice([0, 7, -12, 255, 10 ** 20, 4095])
+                it.environment.put(name, ValueInt(val))
+                text = str(val)
+            else:
+                text = rng.choice(["", "{p0}", "}", "{", "a{p1}b", "x{y}", "{{", "}{", "{p0#5}"]) if rng.random() < 0.5 else SV.rs(rng, hi=6)
+                it.environment.put(name, ValueString(text))
+            width = rng.choice([0, 1, 3, 8, 12])
+            mode = rng.choice(["", "right", "left", "zero"])
+            if mode == "":
+                spec, shown = "", text
+            elif mode == "right":
+                spec, shown = f"#{width}", text.rjust(width)
+            elif mode == "left":
+                spec, shown = f"#-{width}", text.ljust(width)
+            else:
+                spec, shown = f"#0{width}", text.rjust(width, "0")
+            template += piece + "{" + name + spec + "}"
+            want += piece + shown
+        tail = "".join(rng.choice(lit_alpha) for _ in range(rng.randint(0, 3)))
+        template += tail
+        want += tail
+        it.environment.put("tpl", ValueString(template))
+        it.environment.put("want", ValueString(want))
+        out = common.run_program(it, "s(tpl) == want", "c18")
+        ctx.seen(("interp", template, want), nontrivial=True)
+        ctx.count("interpolations")
+        if out[:2] != ('val', 'TRUE'):
+            got = common.run_program(it, "s(tpl)", "c18")
+            ctx.violation("oracle", f"s({template!r}) gives {got[:2]}, the definition gives {want!r} (placeholder values: "
+                          f"{[str(it.environment.get(f'p{k}')) for k in range(nph)]})", {"op": "interpolation", "template": template, "expected": want})
     ctx.sample({"call": "replace('abcabc', 'bc', 'x')", "result": "axax"})
     ctx.sample({"call": "split('a*b', escape_pattern('*'))", "result": ["a", "b"]})
     ctx.sample({"law": "contains(s, t) == (find(s, t) >= 0)"})
